@@ -115,8 +115,8 @@ def generate(rnd, tier):
             random_ = rnd.random() < 0.5
             ops.append({"ds": "correlated", "n": n, "random": random_, "rng": gen_rng(rnd, ["choice"] if random_ else ["shuffle"])})
     return {"np_seed": rnd.randrange(2**31), "normal": normal, "bernoulli": bern, "correlated": corr, "ops": ops,
-            "analytic_q": [rnd.choice([1e-6, 1e-3, 0.5, 1 - 1e-6, round(rnd.uniform(0.001, 0.999), 4)]) for _ in range(3)],
-            "analytic_z": [round(rnd.uniform(-5, 5), 3) for _ in range(3)]}
+            "analytic_q": [rnd.choice([1e-12, 1e-9, 1e-6, 1e-3, 0.5, 1 - 1e-6, 1 - 1e-9, 1 - 1e-12, round(rnd.uniform(0.001, 0.999), 4)]) for _ in range(3)],
+            "analytic_z": [round(rnd.uniform(-5, 5), 3) if rnd.random() < 0.7 else round(rnd.uniform(-8, 8), 3) for _ in range(3)]}
 
 
 # --------------------------------------------------------------------------
@@ -201,29 +201,37 @@ def execute(scn, ctx):
                 t = nd.threshold_at_fnr(q)
                 if not isinstance(t, float):
                     bad("analytic_scalar", f"threshold_at_fnr({q}) returned {type(t).__name__}, expected a plain scalar")
-                if abs(nd.fnr(t) - q) > 1e-12:
+                tol = 1e-9 * min(q, 1 - q) + 4e-16  # relative in both tails (measured on the unchanged tree: 9e-14)
+                if abs(nd.fnr(t) - q) > tol:
                     bad("analytic_inverse", f"fnr(threshold_at_fnr({q})) = {nd.fnr(t)!r}")
                 t = nd.threshold_at_fpr(q)
-                if abs(nd.fpr(t) - q) > 1e-12:
+                if abs(nd.fpr(t) - q) > tol:
                     bad("analytic_inverse", f"fpr(threshold_at_fpr({q})) = {nd.fpr(t)!r}")
                 if not isinstance(nd.fpr(t), float):
                     bad("analytic_scalar", f"fpr(scalar) returned {type(nd.fpr(t)).__name__}")
             for z in scn["analytic_z"]:
-                t = nd.mu_pos + z * nd.sigma_pos
+                # cdf/ppf are accurate in the lower tail, sf/isf in the upper tail; near 1 a rate cannot carry
+                # the threshold in double precision, so each round trip is asked only where it is well-posed
+                zf = min(z, 5.0)
+                t = nd.mu_pos + zf * nd.sigma_pos
                 back = nd.threshold_at_fnr(nd.fnr(t))
                 if abs(back - t) > 1e-6 * max(1.0, nd.sigma_pos):
                     bad("analytic_inverse", f"threshold_at_fnr(fnr({t})) = {back!r}")
-                t = nd.mu_neg + z * nd.sigma_neg
+                zp = max(z, -5.0)
+                t = nd.mu_neg + zp * nd.sigma_neg
                 back = nd.threshold_at_fpr(nd.fpr(t))
                 if abs(back - t) > 1e-6 * max(1.0, nd.sigma_neg):
                     bad("analytic_inverse", f"threshold_at_fpr(fpr({t})) = {back!r}")
             qa = np.asarray(scn["analytic_q"], dtype=float)
             for kw in ({"fnr": qa}, {"fpr": qa}):
                 c = nd.roc(**kw)
-                if not (M.close(c.fnr, nd.fnr(np.asarray(c.thresholds)), 1e-12) and M.close(c.fpr, nd.fpr(np.asarray(c.thresholds)), 1e-12)):
+                rt = 1e-9 * np.minimum(qa, 1 - qa) + 4e-16
+                f_at, p_at = np.asarray(nd.fnr(np.asarray(c.thresholds))), np.asarray(nd.fpr(np.asarray(c.thresholds)))
+                if not (np.all(np.abs(np.asarray(c.fnr) - f_at) <= 1e-9 * np.minimum(f_at, 1 - f_at) + 4e-16)
+                        and np.all(np.abs(np.asarray(c.fpr) - p_at) <= 1e-9 * np.minimum(p_at, 1 - p_at) + 4e-16)):
                     bad("analytic_roc", f"roc({list(kw)[0]}=...) rates are not the rates at its thresholds")
                 given = np.asarray(c.fnr if "fnr" in kw else c.fpr)
-                if not M.close(given, qa, 1e-12):
+                if not np.all(np.abs(given - qa) <= rt):
                     bad("analytic_roc", f"roc({list(kw)[0]}=q) does not pass through q: {given.tolist()} vs {qa.tolist()}")
             for kw in ({}, {"fnr": qa, "fpr": qa}):
                 try:
